@@ -17,7 +17,8 @@
 //! Three loopback mocks per row: two minimal HTTP/1.1 servers ("https", "http" - TactClient accepts plain
 //! http:// URLs) and one Ribbit TCP server, scripted by `beh` (switched to `beh2` by the `flip` op).
 //! `Refused` = a socket that is bound but does not listen (connect() fails with ECONNREFUSED and nobody else
-//! can take the port).  Every mock logs each request it reads, in one list per row, so the order of contacts
+//! can take the port).  The mocks of a row listen on a loopback address of their own (127.13.a.b), out of
+//! reach of other processes' traffic to 127.0.0.1.  Every mock logs each request it reads, in one list per row, so the order of contacts
 //! is the order of the log.
 //!
 //! Events (judged by spec/trace/T_Failover.tla; nothing is decided here):
@@ -438,6 +439,7 @@ struct RowCtx {
     paths: Vec<String>,
     shape: Option<String>, // shape of the TCP response for path 1 (split family); default by behaviour
     cuts: Vec<usize>,
+    ip: String,
     beh: Mutex<HashMap<String, String>>,
     log: Mutex<Vec<(String, String)>>,
 }
@@ -680,14 +682,21 @@ impl Drop for Endpoint {
 }
 
 /// start one mock; returns its port
+/// Every row gets its own loopback address (all of 127.0.0.0/8 is local): a socket bound to 127.13.a.b cannot be
+/// reached through 127.0.0.1, so a stray request of another process on this machine (a late client of a server that
+/// used to own the port) never shows up in a mock's request log.
+fn row_ip(idx: usize) -> String {
+    format!("127.13.{}.{}", 1 + std::process::id() % 250, 1 + idx % 250)
+}
+
 async fn start_mock(ep: &'static str, refuse: bool, row: Arc<RowCtx>) -> (u16, Endpoint) {
     if refuse {
         let sock = TcpSocket::new_v4().expect("socket");
-        sock.bind("127.0.0.1:0".parse().unwrap()).expect("bind");
+        sock.bind(format!("{}:0", row.ip).parse().unwrap()).expect("bind");
         let port = sock.local_addr().expect("addr").port();
         return (port, Endpoint::Refusing(sock));
     }
-    let l = TcpListener::bind("127.0.0.1:0").await.expect("bind mock");
+    let l = TcpListener::bind(format!("{}:0", row.ip)).await.expect("bind mock");
     let port = l.local_addr().expect("addr").port();
     let h = tokio::spawn(async move {
         loop {
@@ -743,7 +752,7 @@ fn scratch() -> std::path::PathBuf {
     if p.is_dir() { p.to_path_buf() } else { std::env::temp_dir() }
 }
 
-async fn run_query_row(prog: &Value) -> Vec<Value> {
+async fn run_query_row(prog: &Value, idx: usize) -> Vec<Value> {
     let mut evs = vec![];
     let cls = prog["cls"].as_str().unwrap_or("versions").to_string();
     let cache_kind = prog["cache"].as_str().unwrap_or("mem").to_string();
@@ -757,6 +766,7 @@ async fn run_query_row(prog: &Value) -> Vec<Value> {
         paths: paths_of(&cls),
         shape: shape.clone(),
         cuts: cuts.clone(),
+        ip: row_ip(idx),
         beh: Mutex::new(beh1.clone()),
         log: Mutex::new(vec![]),
     });
@@ -773,9 +783,9 @@ async fn run_query_row(prog: &Value) -> Vec<Value> {
     let dir = tempfile::Builder::new().prefix("c13-").tempdir_in(scratch()).expect("tempdir");
     let ttl = if ttl_kind == "short" { Duration::from_millis(SHORT_TTL_MS) } else { Duration::from_secs(LONG_TTL_S) };
     let cfg = ClientConfig {
-        tact_https_url: format!("http://127.0.0.1:{}", ports[0]),
-        tact_http_url: format!("http://127.0.0.1:{}", ports[1]),
-        ribbit_url: format!("tcp://127.0.0.1:{}", ports[2]),
+        tact_https_url: format!("http://{}:{}", row.ip, ports[0]),
+        tact_http_url: format!("http://{}:{}", row.ip, ports[1]),
+        ribbit_url: format!("tcp://{}:{}", row.ip, ports[2]),
         cache_config: CacheConfig {
             cache_dir: if cache_kind == "disk" { Some(dir.path().join("cache")) } else { None },
             ribbit_ttl: ttl,
@@ -906,13 +916,14 @@ async fn cdn_conn(mut s: TcpStream, ctx: Arc<CdnCtx>) {
     let _ = s.shutdown().await;
 }
 
-async fn run_cdn_row(prog: &Value) -> Vec<Value> {
+async fn run_cdn_row(prog: &Value, idx: usize) -> Vec<Value> {
+    let ip = row_ip(idx);
     let mut evs = vec![];
     let script: Vec<u16> = prog["script"].as_array().unwrap().iter().map(|x| x.as_u64().unwrap() as u16).collect();
     let ra = prog["ra"].as_str().filter(|s| *s != "none").map(|s| s.to_string());
     let cache_kind = prog["cache"].as_str().unwrap_or("disk").to_string();
     let ctx = Arc::new(CdnCtx { script: script.clone(), ra: ra.clone(), seen: Mutex::new(HashMap::new()), reqs: Mutex::new(vec![]) });
-    let l = TcpListener::bind("127.0.0.1:0").await.expect("bind cdn mock");
+    let l = TcpListener::bind(format!("{ip}:0")).await.expect("bind cdn mock");
     let port = l.local_addr().unwrap().port();
     let c2 = ctx.clone();
     let acc = tokio::spawn(async move {
@@ -945,7 +956,7 @@ async fn run_cdn_row(prog: &Value) -> Vec<Value> {
         }
     };
     let endpoint = CdnEndpoint {
-        host: format!("127.0.0.1:{port}"),
+        host: format!("{ip}:{port}"),
         path: "tpr/wow".into(),
         product_path: None,
         scheme: Some("http".into()),
@@ -1155,7 +1166,7 @@ fn main() {
                         break;
                     }
                     let prog = programs[i].clone();
-                    let evs = if prog["fam"] == "cdn" { run_cdn_row(&prog).await } else { run_query_row(&prog).await };
+                    let evs = if prog["fam"] == "cdn" { run_cdn_row(&prog, i).await } else { run_query_row(&prog, i).await };
                     results.lock().unwrap()[i] = Some(evs);
                 }
             }));
